@@ -103,8 +103,8 @@ def redo (s : St) : G St := do
   let h := getLH s k
   if h.items.isEmpty then return setLH s k h
   let h := { h with pos := h.pos - 1 }
+  if h.pos < 1 then return setLH s k { h with pos := 0 }
   let s := setLH s k h
-  if h.pos < 1 then return s
   let idx := (h.items.length : Int) - h.pos
   if idx < 0 ∨ idx ≥ h.items.length then throw (.oob "redo index")
   match h.items[idx.toNat]? with
@@ -122,18 +122,18 @@ def isSpaceR (c : Nat) : Bool :=
   c == 9 || c == 10 || c == 11 || c == 12 || c == 13 || c == 32 || c == 0x85 || c == 0xA0
 def trim (l : List Nat) : List Nat := ((l.dropWhile isSpaceR).reverse.dropWhile isSpaceR).reverse
 
-/-- memory.GetLine -/
-def getLine (src : List (List Nat)) (i : Int) : G (List Nat) :=
-  if src.isEmpty then pure [] else
-  if i < 0 ∨ i ≥ src.length then throw (.oob "GetLine") else pure (src.getD i.toNat [])
+/-- memory.GetLine: `none` is the error value `errOutOfRangeIndex` -/
+def getLine (src : List (List Nat)) (i : Int) : Option (List Nat) :=
+  if src.isEmpty then some [] else
+  if i < 0 ∨ i ≥ src.length then none else some (src.getD i.toNat [])
 
-/-- Sources.Write for one memory source (pinned semantics). maxEntries: −1 unset. -/
+/-- the body of the loop of `Sources.Write` for one memory source. maxEntries: −1 unset.
+Returns the new source and whether the loop stops (never, since the `fix:` of the early return). -/
 def writeOne (maxEntries : Int) (src : List (List Nat)) (line : List Nat) : G (List (List Nat) × Bool) := do
-  -- returns (new source, stopIterating)
-  if maxEntries = 0 ∨ maxEntries ≥ src.length then return (src, false)
-  let last ← getLine src ((src.length : Int) - 1)
-  if last ≠ [] ∧ trim last = trim line then return (src, true)
-  return (src ++ [line], false)
+  if maxEntries = 0 ∨ (maxEntries > 0 ∧ (src.length : Int) ≥ maxEntries) then return (src, false)
+  match getLine src ((src.length : Int) - 1) with
+  | some last => if last ≠ [] ∧ trim last = trim line then return (src, false) else return (src ++ [line], false)
+  | none => return (src ++ [line], false)     -- `err != nil`: the duplicate test is skipped
 
 def setLineCursorMatch (s : St) (next : List Nat) : St :=
   let cp := (checkAppend s.line s.cur).pos
@@ -167,7 +167,8 @@ def walk (s : St) (pos : Int) : G St := do
   match h.items.getLast? with
   | some it => return setLineCursorMatch s it.line
   | none =>
-    let l ← getLine s.src (n - s.hpos)
-    return setLineCursorMatch s l
+    match getLine s.src (n - s.hpos) with
+    | some l => return setLineCursorMatch s l
+    | none => return s                         -- error hint, buffer untouched
 
 end RLV.Hist
